@@ -26,7 +26,7 @@ type stepRec struct {
 }
 
 func Run(ctx *common.Ctx) {
-	ncases, maxLen := 500, 8
+	ncases, maxLen := 700, 13
 	if ctx.Thorough() {
 		ncases, maxLen = 8000, 14
 	}
@@ -162,12 +162,25 @@ func Run(ctx *common.Ctx) {
 				}
 				e, i := fresh(), ctx.Rng.Intn(lens[src])
 				lisp, g = fmt.Sprintf("(setf (nth %d %s) %d)", i, vn(src), e), fmt.Sprintf("OSetnth %d %d %d", src, i, e)
-			case x < 93:
+			case x < 91:
 				lisp, g = fmt.Sprintf("(setq %s (nreverse %s))", vn(dst), vn(src)), fmt.Sprintf("ONreverse %d %d", src, dst)
-			case x < 97:
+			case x < 93:
 				lisp, g = fmt.Sprintf("(setq %s (nconc %s %s))", vn(dst), vn(src), vn(b)), fmt.Sprintf("ONconc %d %d %d", src, b, dst)
-			default:
+			case x < 94:
 				lisp, g = fmt.Sprintf("(setq %s (sort %s '<))", vn(dst), vn(src)), fmt.Sprintf("OSort %d %d", src, dst)
+			default:
+				// remove / delete an element that is (usually) present
+				e := fresh()
+				if l, ok := scope.Get(slip.Symbol(vn(src))).(slip.List); ok && len(l) > 0 && ctx.Rng.Chance(80) {
+					if fx, isFix := l[ctx.Rng.Intn(len(l))].(slip.Fixnum); isFix {
+						e = int(fx)
+					}
+				}
+				fname := "remove"
+				if ctx.Rng.Bool() {
+					fname = "delete"
+				}
+				lisp, g = fmt.Sprintf("(setq %s (%s %d %s))", vn(dst), fname, e, vn(src)), fmt.Sprintf("ORemove %d %d %d", e, src, dst)
 			}
 			ctx.Hist("op:" + strings.SplitN(g, " ", 2)[0])
 			out := common.EvalIn(scope, lisp)
@@ -204,7 +217,7 @@ func Run(ctx *common.Ctx) {
 	}
 	_ = keep
 	ctx.Meta.DistinctNontrivial = len(distinct)
-	ctx.Meta.Rule = "random histories (3..8 steps, thorough 3..14) over 4 variables of list, cons, cdr, nthcdr, last, butlast, subseq, copy-list, reverse, append, add, push, pop, (setf car), (setf nth), nreverse, nconc, sort; fresh integers as elements; after every step each variable's contents and (array identity, offset, capacity) read from the slip.List header; distinct = distinct op sequences"
+	ctx.Meta.Rule = "random histories (3..13 steps, thorough 3..14) over 4 variables of list, cons, cdr, nthcdr, last, butlast, subseq, copy-list, reverse, append, add, push, pop, (setf car), (setf nth), nreverse, nconc, sort, remove, delete; fresh integers as elements; after every step each variable's contents and (array identity, offset, capacity) read from the slip.List header; distinct = distinct op sequences"
 	header := "From C06 Require Import Model Spec Corr.\n"
 	footer := "Definition res := Eval vm_compute in check_all cases.\nPrint res.\nDefinition gcount := Eval vm_compute in guard_count cases.\nPrint gcount.\n"
 	ctx.WriteShards("cases", header, "case", footer, terms, descs, 16)
